@@ -52,6 +52,9 @@ type MetaCfg struct {
 	// RelInOverride: the relation lists are configured in the override block of the format being built (the base
 	// settings carry decoys), incl. deb.breaks / deb.predepends / ipk.predepends inside it.
 	RelInOverride bool `json:"rel_in_override,omitempty"`
+	// UnrelatedOverride: the format being built has an override block that sets something unrelated to the
+	// metadata (umask): everything configured in the base settings must still reach the package.
+	UnrelatedOverride bool `json:"unrelated_override,omitempty"`
 }
 
 type RelItem struct {
